@@ -309,7 +309,7 @@ for bits in (8, 12):
             break
     if VIOLATED: break
 """, "expect": "apply_sar_adc_with_noise with zero strengths and noises gives the codes of apply_sar_adc (binary64, all transitions of 8 and 12 bit converters, five range maxima: BOUNDED)"}
-STANDIN = {r"sar_noise": SAR_TRANSITIONS_REPLAY}
+STANDIN = {r"\bsar": SAR_TRANSITIONS_REPLAY}
 
 
 @unit("C16", "sar_noise")
